@@ -589,7 +589,9 @@ def index_cases(draw):
     labels = [] if kind == 'empty' else (list(range(n)) if kind == 'auto' else draw(gen.flat_labels(n, kind)))
     steps = draw(st.lists(st.fixed_dictionaries({
         's': st.sampled_from(['append', 'append_dup', 'extend', 'extend_partial', 'extend_dup_within', 'extend_gen_partial', 'to_static', 'copy', 'read', 'series_from']),
-        'i': st.integers(0, 30), 'j': st.integers(0, 30)}), min_size=1, max_size=10))
+        'i': st.integers(0, 30), 'j': st.integers(0, 30),
+        # whether the index is looked at after the step (looking refreshes what growth left pending; two steps in three go unobserved)
+        'look': st.sampled_from([False, True, False])}), min_size=1, max_size=10))
     return {'kind': kind, 'labels': labels, 'steps': steps}
 
 
@@ -599,7 +601,8 @@ def _fresh(kind, model, v):
     elif kind == 'str':
         c = 'n%d' % v
     elif kind in ('int', 'auto', 'empty'):
-        c = len(model) if (kind == 'auto' and v % 2 == 0) else 500 + v
+        # (an automatic integer index keeps growing by the next position; any other label, an int or a str, ends that mode)
+        c = len(model) if (kind == 'auto' and v % 2 == 0) else ('n%d' % v if (kind == 'auto' and v % 4 == 1) else 500 + v)
     else:
         c = [500 + v, 'n%d' % v, (9, v), 2.5 + v][v % 4]
     return None if any(eq(canon(c), canon(x)) for x in model) else c
@@ -624,7 +627,8 @@ def check_index_history(case):
     nt = False
     for stp in case['steps']:
         s = stp['s']
-        before = obs.snap(ix)
+        # (taking the snapshot reads the index: on unobserved steps a refused call is judged against the model afterwards instead)
+        before = obs.snap(ix) if stp.get('look', True) else None
         if s == 'append':
             c = _fresh(kind, model, stp['i'])
             if c is None:
@@ -641,7 +645,9 @@ def check_index_history(case):
             r = lib(ix.append, c)
             if not isinstance(r, Raised):
                 raise Failure('no-raise', 'append of duplicate %r accepted' % (c,))
-            if obs.snap(ix) != before:
+            if before is None:
+                check_index(ix, model, 'after the refused append of %r' % (c,), auto=False)
+            elif obs.snap(ix) != before:
                 raise Failure('not-all-or-nothing', 'rejected append changed the index')
         elif s in ('extend', 'extend_partial', 'extend_dup_within', 'extend_gen_partial'):
             a, b = _fresh(kind, model, stp['i']), _fresh(kind, model, stp['i'] + 11)
@@ -664,6 +670,10 @@ def check_index_history(case):
                 r = lib(call)
                 if not isinstance(r, Raised):
                     raise Failure('no-raise', 'extend(%s) containing a duplicate accepted' % short(arg))
+                if before is None:
+                    check_index(ix, model, 'after the refused extend(%s)' % short(arg), auto=False)
+                    nt = True
+                    continue
                 after = lib(obs.snap, ix)
                 if isinstance(after, Raised) or after != before:
                     raise Failure('not-all-or-nothing', 'rejected extend(%s) changed the index: %s -> %s' % (short(arg), short(before[4]), short(after[4] if not isinstance(after, Raised) else after)))
@@ -681,6 +691,9 @@ def check_index_history(case):
             ix.values
             len(ix)
         classes.append('ix:' + s)
+        if not stp.get('look', True) and stp is not case['steps'][-1]:
+            classes.append('ix:unobserved-step')
+            continue
         check_index(ix, model, 'after ' + s, auto=False)
         for fz, fm in frozen:
             check_index(fz, fm, 'earlier static/copy after ' + s)
